@@ -116,12 +116,12 @@ func (g *Gen) drawPriceM(t *rapid.T, label string) *big.Int {
 		return bmul(pow10(rapid.IntRange(7, 18).Draw(t, label+"-xpow")), E18)
 	}
 	switch uni(t, label+"-class", 10) {
-	case 0, 1, 2: // small integers
+	case 0, 1: // small integers
 		return bmul(bi(int64(rapid.IntRange(1, 5).Draw(t, label+"-int"))), E18)
-	case 3, 4: // non-terminating ratios n/d truncated (or rounded up) to 18 places
+	case 2, 3, 4: // non-terminating ratios n/d truncated (or rounded up) to 18 places
 		n := int64(rapid.IntRange(1, 20).Draw(t, label+"-n"))
 		d := pick(t, label+"-d", ratDen)
-		if pct(t, 40, label+"-roundup") {
+		if pct(t, 50, label+"-roundup") {
 			return ceilDiv(bmul(bi(n), E18), bi(d))
 		}
 		return floorDiv(bmul(bi(n), E18), bi(d))
@@ -487,6 +487,10 @@ func (g *Gen) genCreate(t *rapid.T, w *World, s *Snap, kind string) Op {
 		for i := 0; i < n; i++ {
 			if i == 0 && pct(t, 25, "release-just-after-end") {
 				rel = rel.Add(1)
+			} else if i > 0 && pct(t, 10, "release-within-a-second") {
+				// consecutive instalments less than a second apart (release times have nanosecond resolution)
+				rel = rel.Add(pick(t, "release-gap", []time.Duration{1, time.Millisecond, 500 * time.Millisecond, 999999999}))
+				g.label("create:releases-within-one-second")
 			} else {
 				rel = rel.Add(time.Duration(rapid.IntRange(1, 30).Draw(t, "release-h")) * time.Hour)
 			}
@@ -883,6 +887,27 @@ func (g *Gen) genPlaceBid(t *rapid.T, w *World, s *Snap) Op {
 			room = bi(1)
 		}
 		var qty *big.Int
+		if pct(t, 8, "fixed-paying-at-room-boundary") {
+			// the largest paying amount that still converts to exactly what the allowance and the
+			// remainder leave room for, or one unit more (which converts to room+1: must be rejected)
+			o.CoinDenom = a.PayDenom
+			pay := bsub(MulCeil(badd(room, bigOne), a.StartPriceM), bigOne)
+			if QuoFloor(pay, a.StartPriceM).Cmp(room) > 0 { // (room+1)*p is an integer: step back to stay inside
+				pay = bsub(pay, bigOne)
+			}
+			if pct(t, 35, "fixed-paying-just-over-room") {
+				pay = MulCeil(badd(room, bigOne), a.StartPriceM)
+			}
+			if pay.Sign() <= 0 {
+				pay = bi(1)
+			}
+			o.CoinAmount = pay.String()
+			g.label("bid:fixed-paying-at-room-boundary")
+			if pct(t, g.W.PerturbPct, "perturb-bid") {
+				g.perturbBid(t, w, s, a, &o)
+			}
+			return o
+		}
 		switch uni(t, "fixed-qty-mode", 6) {
 		case 0:
 			qty = g.around(t, "fixed-qty-remaining", a.Remaining)
@@ -912,6 +937,23 @@ func (g *Gen) genPlaceBid(t *rapid.T, w *World, s *Snap) Op {
 			}
 			if pay.Sign() <= 0 {
 				pay = bi(1)
+			}
+			if pct(t, 20, "fixed-pay-near-integer-quotient") {
+				// among the 14 amounts from pay downwards take the one whose quotient by the price
+				// lies closest below an integer (where truncation and rounding disagree)
+				best, bestR := pay, new(big.Int)
+				for k := int64(0); k < 14; k++ {
+					c := bsub(pay, bi(k))
+					if c.Sign() <= 0 {
+						break
+					}
+					r := new(big.Int).Mod(bmul(c, E18), a.StartPriceM)
+					if r.Cmp(bestR) > 0 {
+						best, bestR = c, r
+					}
+				}
+				pay = best
+				g.label("bid:fixed-paying-quotient-just-below-integer")
 			}
 			o.CoinAmount = pay.String()
 			if QuoFloor(pay, a.StartPriceM).Sign() == 0 {
